@@ -8,7 +8,7 @@ from . import lib
 
 DRV = "drv_parse"
 HEADS = ["blte", "blte_enc_header", "encoding", "archive_index", "root", "install", "download", "size", "tvfs",
-         "patch_archive", "patch_index", "zbsdiff", "local_idx", "lru", "shmem", "dirnames", "zbsdiff_ctl", "patch_index_block2", "patch_index_block8",
+         "patch_archive", "patch_index", "zbsdiff", "local_idx", "lru", "shmem", "dirnames", "zbsdiff_ctl", "patch_index_block2", "patch_index_block8", "blte_echunk",
          "espec", "bpsv", "build_config", "cdn_config", "patch_config", "product_config", "keyring_config", "mime", "build_info"]
 BFMTS = ["install", "download", "size", "archive_index", "encoding", "root", "tvfs", "patch_archive", "patch_index",
          "bpsv", "build_config", "cdn_config", "keyring_config", "espec"]
